@@ -32,7 +32,8 @@ class C10(object):
                          'exo_on_parameter.judged',
                          'flat_block_without_simultaneous_part.cases',
                          'failed_period_tried_again_on_the_same_solver.cases',
-                         'model.exogenous_redeclared_through_alternating_routes')
+                         'model.exogenous_redeclared_through_alternating_routes',
+                         'model.judged.with_flat_paths_of_many_digit_values_as_list_objects')
 
     def n_cases(self, tier):
         return 320 if tier == 'quick' else 30000
@@ -40,7 +41,15 @@ class C10(object):
     def make_case(self, rng, idx, tier):
         m = idx % 16
         if m == 15:
-            return self.make_model_case(rng)
+            case = self.make_model_case(rng)
+            if (idx // 16) % 2 == 1:
+                # FLAT paths of many-digit values handed over as list / tuple objects (spending and a parameter)
+                T_ = case['maxtime']
+                case['g'] = [rng.choice([20.0123456789, 1234567.875, 17.000000125])] * (T_ + 1 + rng.randint(3, 6))
+                case['form'] = rng.choice(['list', 'tuple'])
+                case['param_paths']['TF|TaxRate'] = [rng.choice([0.2000000123, 0.123456789])] * (T_ + 4)
+                case['flat_many_digit_paths'] = True
+            return case
         if m == 12 and (idx // 16) % 2 == 0:
             from vf.gen import modelspec as M
             return {'kind': 'spec_model', 'mspec': M.gen_spec(rng, n_zones=rng.choice([1, 2]), maxtime=rng.randint(1, 6))}
@@ -465,6 +474,8 @@ class C10(object):
             return {'verdict': 'notjudged', 'shape': 'model|' + type(e).__name__, 'obs': {'err': repr(e)[:200]}}
         ts = mod.EquationSolver.TimeSeries
         rec.count('model.judged')
+        if case.get('flat_many_digit_paths'):
+            rec.count('model.judged.with_flat_paths_of_many_digit_values_as_list_objects')
         for n, v in ts.items():
             rec.count('length.judged')
             if len(v) != T + 1:
